@@ -6,8 +6,7 @@ from spec import wire_spec as W
 SRC = ['src/avtp/acf/custom/Vss.c', 'src/avtp/Utils.c']
 
 
-def run(tier, only=None):
-    chk = Check('C09', tier)
+def build(tier, only, chk):
     jobs = []
     nmaxs = [96] if tier == 'quick' else [96, W.ACF_MAX_BYTES]
     for nmax in nmaxs:
@@ -28,6 +27,12 @@ def run(tier, only=None):
     for be in (False, True):
         jobs.append(Job('c09.length-accessors.%s' % ('be' if be else 'le'), V.c09_length_accessors(), SRC, be=be,
                         unwind=70, unwindset=WALKER, meta={'values': 'all 512 length-field values'}))
+    return jobs
+
+
+def run(tier, only=None):
+    chk = Check('C09', tier)
+    jobs = build(tier, only, chk)
     chk.run(jobs)
     chk.assumptions = STD_ASSUME + ['message lengths 12..2044 (ACF maximum); lengths below the 12-byte fixed header are not messages',
                                     '(E) exact-extent queries: quick every n in 12..96, thorough 12..160, both plus the type-boundary lengths around 255/256, 1020..1025 and 2040..2044']
